@@ -198,6 +198,7 @@ class PathCtx:
         self.completed = False
         self.syms = {}
         self.notes = []
+        self.kf_hit = False  # a known finding matched on this path
         self.dyadic_vars = None  # set by a harness: prefer float-exact (dyadic) models
         self.dyadic_denom = 1 << 16
 
@@ -444,6 +445,7 @@ class PathCtx:
                                             "label": self.label, "info": info})
                     return False
                 if matched:
+                    self.kf_hit = True
                     kf, ent = matched
                     if kf.kid not in rep.known:
                         rep.known[kf.kid] = ent["text"]
